@@ -53,6 +53,10 @@ def run(repo, rep, tier):
     # default table is complete (C07 owns it)
     from . import c07 as _c07
     L.borrow(repo, rep, "R17.3", "C07", _c07._defaults, ("html-table",))
+    # the encoding a file was read with is not the encoding its result is
+    # written in (C20 owns the text template's render)
+    from . import c20 as _c20
+    L.borrow(repo, rep, "R17.1", "C20", _c20._bytes, ("encode",))
     L.state_rule(repo, rep)
 
 
